@@ -1,6 +1,10 @@
 import Driver.TraceCmd
 import Driver.MerkleCmd
 import Driver.GadgetCmd
+import Driver.MetricsCmd
+import Driver.FileCmd
+import Driver.JobCmd
+import Driver.C16Cmd
 
 def main (args : List String) : IO UInt32 :=
   match args with
@@ -9,4 +13,8 @@ def main (args : List String) : IO UInt32 :=
   | ["corr", "poseidon"] => Driver.lineLoop Driver.poseidonLine
   | ["corr", "bits"] => Driver.lineLoop Driver.bitsLine
   | ["corr", "tree"] => Driver.lineLoop Driver.treeLine
+  | ["corr", "metrics"] => Driver.lineLoop Driver.metricsLine
+  | ["corr", "file"] => Driver.lineLoop Driver.fileLine
+  | ["corr", "job"] => Driver.lineLoop Driver.jobLine
+  | ["corr", "c16"] => Driver.c16Cmd
   | _ => do IO.eprintln "usage: driver <trace|corr> …"; pure 2
